@@ -188,14 +188,14 @@ def job_lookup(Ls, levels_filter=None):
                 for l, f in row.items():
                     ok = f is tabs[l].get(N)
                     res.append(discharge(Obligation('eccentricity_truncations[%d][%d] is orderl%d.eccentricity_funcs_trunc%d' % (N, l, l, N), z3.BoolVal(ok), [],
-                                                    with_axioms=False, with_dens=False, replay=lambda md: (True, 'wrong function in dictionary'),
+                                                    with_axioms=False, with_dens=False, replay=replay.lookup_replay('TidalPy.tides.eccentricity_funcs', 'eccentricity_truncations', lambda md, N=N, l=l: [(N, l, 'orderl%d.eccentricity_funcs_trunc%d' % (l, N))], 'wrong function in dictionary'),
                                                     key=('dict:%d:%d' % (N, l)) if N in tabs[l] else 'dict:%d:degree-without-table' % N)))
             Nz, lz = z3.Ints('N l')
             have = z3.Or(*[z3.And(Nz == N, lz == l) for N, row in d.items() for l in row])
             allN = sorted(set(tabs[2]) & set(tabs[3]))
             res.append(discharge(Obligation('eccentricity_truncations covers every (N,l), N in %s, l in 2..7' % allN, have,
                                             [z3.Or(*[Nz == N for N in allN]), lz >= 2, lz <= 7], with_axioms=False, with_dens=False,
-                                            replay=lambda md: (True, 'missing (N,l)=(%s,%s)' % (md.get('N'), md.get('l'))), key='dict:cover')))
+                                            replay=replay.lookup_replay('TidalPy.tides.eccentricity_funcs', 'eccentricity_truncations', lambda md: [(int(md.get('N', 2)), int(md.get('l', 2)), None)], 'missing entry'), key='dict:cover')))
     # module-level lookup dictionary of mode_calc_helper/__init__.py: [N][L] must be eccentricity_truncation_N_maxl_L
     class _Names:
         def __init__(self, mod):
@@ -212,10 +212,10 @@ def job_lookup(Ls, levels_filter=None):
             good = z3.Or(*[z3.And(Nz == N, Lz == L) for N, row in d.items() for L, v in row.items() if v == ('eccen_calc_orderl%d' % L, 'eccentricity_truncation_%d_maxl_%d' % (N, L))])
             entries = z3.Or(*[z3.And(Nz == N, Lz == L) for N, row in d.items() for L in row])
             res.append(discharge(Obligation('eccentricity_functions_lookup[N][L] is eccen_calc_orderlL.eccentricity_truncation_N_maxl_L for every entry', good, [entries],
-                                            with_axioms=False, with_dens=False, replay=lambda md: (True, 'wrong helper at [N][L]=[%s][%s]' % (md.get('N'), md.get('L'))), key='helperdict:value')))
+                                            with_axioms=False, with_dens=False, replay=replay.lookup_replay('TidalPy.tides.modes.mode_calc_helper', 'eccentricity_functions_lookup', lambda md: [(int(md.get('N', 2)), int(md.get('L', 2)), 'eccen_calc_orderl%d.eccentricity_truncation_%d_maxl_%d' % (int(md.get('L', 2)), int(md.get('N', 2)), int(md.get('L', 2))))], 'wrong helper'), key='helperdict:value')))
             allN = [N for N in sorted(tabs[3])]
             res.append(discharge(Obligation('eccentricity_functions_lookup covers N in %s x L in 2..7' % allN, entries, [z3.Or(*[Nz == N for N in allN]), Lz >= 2, Lz <= 7],
-                                            with_axioms=False, with_dens=False, replay=lambda md: (True, 'missing [N][L]=[%s][%s]' % (md.get('N'), md.get('L'))), key='helperdict:cover')))
+                                            with_axioms=False, with_dens=False, replay=replay.lookup_replay('TidalPy.tides.modes.mode_calc_helper', 'eccentricity_functions_lookup', lambda md: [(int(md.get('N', 2)), int(md.get('L', 2)), None)], 'missing helper'), key='helperdict:cover')))
     for L in Ls:
         path = 'TidalPy/tides/modes/mode_calc_helper/eccen_calc_orderl%d.py' % L
         hsrc = open(os.path.join(REPO, path)).read()
